@@ -81,6 +81,15 @@ func wgAcctCase(s *Sexp) string {
 	wg := &fun.WaitGroup{}
 	ctx, cancel := context.WithCancel(context.Background())
 	defer cancel()
+	// (ctx dead): the context handed to the launch helper has already ended. The operations are started
+	// all the same (the helpers do not look at the context; the operations here ignore it too), so the
+	// accounting must be the same as with a live context.
+	lctx := ctx
+	if sxStr(s, "ctx") == "dead" {
+		var lcancel context.CancelFunc
+		lctx, lcancel = context.WithCancel(ctx)
+		lcancel()
+	}
 	gate := make(chan struct{})
 	started := make(chan int, n)
 	exited := make(chan int, n)
@@ -97,26 +106,35 @@ func wgAcctCase(s *Sexp) string {
 	switch via {
 	case "launch":
 		for i := 0; i < n; i++ {
-			wg.Launch(ctx, op)
+			wg.Launch(lctx, op)
 		}
 	case "dotimes":
-		wg.DoTimes(ctx, n, op)
+		wg.DoTimes(lctx, n, op)
 	case "opadd":
 		for i := 0; i < n; i++ {
-			op.Add(ctx, wg)
+			op.Add(lctx, wg)
 		}
 	case "startgroup":
-		op.StartGroup(ctx, wg, n)
+		op.StartGroup(lctx, wg, n)
 	default:
 		return "bad-op"
 	}
+	nstarted := 0
 	for i := 0; i < n; i++ {
-		<-started
+		select {
+		case <-started:
+			nstarted++
+		case <-time.After(5 * time.Second): // only a helper that did not start its operations gets here
+			i = n
+		}
 	}
 	running := wg.Num()
 	close(gate)
-	for i := 0; i < n; i++ {
+	for i := 0; i < nstarted; i++ {
 		<-exited
+	}
+	if nstarted != n {
+		return fmt.Sprintf("acct n=%d started=%d running=%d (not every operation was started)", n, nstarted, running)
 	}
 	// the deferred Done of each goroutine runs right after its `exited` message: wait for the
 	// counter to drain (generous deadline; only a lost Done makes this expire)
